@@ -6,7 +6,7 @@ import itertools
 from typing import Dict, List, Optional, Set, Tuple
 
 from ..core import AnalysisError, FunctionInfo, call_name, unparse, walk_no_nested
-from ..exprs import cmp_canon, conjuncts, disjuncts
+from ..exprs import canon_unparse, cmp_canon, conjuncts, disjuncts
 from .common import F_GL, cfg_of, construct, loc, short
 
 # ---------------------------------------------------------------------------------------------
@@ -159,8 +159,8 @@ def _exception_still_valid(fi: FunctionInfo, call: ast.Call, recv: str, val: str
         # the loop iterates unknown_values whose definition filters on known_values and str_nan
         for n in walk_no_nested(src_fn):
             if isinstance(n, ast.Assign) and isinstance(n.targets[0], ast.Name) and n.targets[0].id == "unknown_values":
-                txt = unparse(n.value)
-                if "not in self.known_values" in txt and "!= self.str_nan" in txt:
+                txt = canon_unparse(n.value)
+                if "notinself.known_values" in txt and ("self.str_nan!=value" in txt or "!=self.str_nan" in txt):
                     loops = cfg_loops(fi, call)
                     return any(unparse(l.iter) == "unknown_values" and unparse(l.target) == val for l in loops if isinstance(l, ast.For))
         return False
